@@ -79,6 +79,11 @@ Section Influence.
   Qed.
 End Influence.
 
+Theorem sem_reads_declared W sem : wf W ->
+  reads_declared W (esem_of W sem) /\
+  forall inp n, n < wb_n W -> espec W (esem_of W sem) inp n = spec W sem inp n.
+Proof. intros WF. split; [apply esem_of_declared|apply espec_esem_of; exact WF]. Qed.
+
 (* ==================================================================== edges *)
 Section Edges.
   Variable W : workbook.
